@@ -111,7 +111,12 @@ class Check:
         if not os.path.exists(p):
             return []
         data = json.load(open(p))
-        return [f for f in data.get("findings", []) if f.get("property") == self.pid]
+        out = [f for f in data.get("findings", []) if f.get("property") == self.pid]
+        # per-property fragments (same format), kept in separate files
+        import glob
+        for q in sorted(glob.glob(os.path.join(ROOT, "known_findings.d", "*.json"))):
+            out += [f for f in json.load(open(q)).get("findings", []) if f.get("property") == self.pid]
+        return out
 
     def _ledger(self):
         p = os.path.join(ROOT, "obligations", f"{self.pid}.txt")
